@@ -4,7 +4,7 @@
 From Coq Require Import List Arith Lia Bool Sorted Permutation Ring.
 Import ListNotations.
 Require Import Clarabel.Base.Ops Clarabel.Csc.Model Clarabel.Csc.Spec.
-Require Import Clarabel.Csc.LemmasAlgBase.
+Require Import Clarabel.Csc.LemmasAlgBase Clarabel.Csc.LemmasAlgFmt.
 
 (** * Canonical form helpers (no ring) *)
 Section Canon.
@@ -126,59 +126,54 @@ Proof.
     destruct (na =? nb); reflexivity.
 Qed.
 
-(** ** decode (encode A) = A *)
-Lemma skipn_app_exact {X} (l1 l2 : list X) : skipn (length l1) (l1 ++ l2) = l2.
-Proof. induction l1 as [|x l1 IH]; cbn [length skipn app]; auto. Qed.
-
-Lemma combine_fst_snd {X Y} (l : list (X * Y)) : combine (map fst l) (map snd l) = l.
-Proof.
-  induction l as [|[x y] l IH]; cbn [map combine fst snd]; auto. rewrite IH; reflexivity.
-Qed.
-
-Lemma slice_map {X Y} (f : X -> Y) l a b : slice (map f l) a b = map f (slice l a b).
-Proof. unfold slice. rewrite skipn_map, firstn_map. reflexivity. Qed.
-
-Lemma nth0_colptr_from acc (cs : list col) : nth 0 (colptr_from acc cs) 0 = acc.
-Proof. destruct cs; reflexivity. Qed.
-
-Lemma raw_cols_gen (cs : list col) acc (pre : list entry) :
-  length pre = acc ->
-  map (fun j => slice (pre ++ concat cs) (nth j (colptr_from acc cs) 0)
-                      (nth (S j) (colptr_from acc cs) 0))
-      (seq 0 (length cs)) = cs.
-Proof.
-  revert acc pre; induction cs as [|c cs IH]; intros acc pre Hpre; auto.
-  cbn [length seq map concat colptr_from]. f_equal.
-  - cbn [nth]. rewrite nth0_colptr_from. unfold slice. subst acc.
-    rewrite skipn_app_exact.
-    replace (length pre + length c - length pre) with (length c + 0) by lia.
-    rewrite firstn_app_2. cbn [firstn]. apply app_nil_r.
-  - rewrite <- seq_shift, map_map.
-    etransitivity; [|apply (IH (acc + length c) (pre ++ c))].
-    + apply map_ext. intros j. rewrite <- app_assoc. reflexivity.
-    + rewrite app_length. lia.
-Qed.
-
-Lemma raw_col_encode (A : csc) j :
-  raw_col (encode A) j =
-  slice (concat (cols A)) (nth j (colptr_from 0 (cols A)) 0)
-        (nth (S j) (colptr_from 0 (cols A)) 0).
-Proof.
-  unfold raw_col, encode. cbn [rcolptr rrowval rnzval].
-  rewrite !slice_map. apply combine_fst_snd.
-Qed.
-
-Lemma raw_cols_encode (A : csc) : WellDim A -> raw_cols (encode A) = cols A.
-Proof.
-  intros HA. unfold raw_cols. change (rn (encode A)) with (nc A). rewrite <- HA.
-  etransitivity; [|apply (raw_cols_gen (cols A) 0 [])]; auto.
-  apply map_ext. intros j. apply raw_col_encode.
-Qed.
-
 Lemma decode_encode_aux (A : csc) : WellDim A -> decode (encode A) = A.
 Proof.
   intros HA. unfold decode. rewrite raw_cols_encode by exact HA.
   destruct A; reflexivity.
+Qed.
+
+(** ** check_format *)
+Lemma check_format_iff_aux (r : @raw T) :
+  check_format r = FmtOk <-> exists A : csc, Canonical A /\ r = encode A.
+Proof.
+  rewrite check_format_ok_iff. split.
+  - intros H. exists (decode r). split.
+    + apply rawok_canonical; exact H.
+    + apply rawok_encode_decode; exact H.
+  - intros [A [HA ->]]. apply encode_rawok. exact HA.
+Qed.
+
+Lemma check_format_errors_aux (r : @raw T) :
+  (check_format r = IncompatibleDimension <->
+     (length (rrowval r) <> length (rnzval r) \/ length (rcolptr r) <> S (rn r)
+      \/ nth (rn r) (rcolptr r) 0 <> length (rrowval r))) /\
+  (check_format r = BadColptr ->
+     nth 0 (rcolptr r) 0 <> 0 \/ mono_le (rcolptr r) = false).
+Proof.
+  unfold check_format, check_dimensions.
+  destruct (Nat.eqb_spec (length (rrowval r)) (length (rnzval r))) as [E1|E1]; cbn [negb].
+  2:{ split; [split; auto | discriminate]. }
+  destruct (Nat.eqb_spec (length (rcolptr r)) 0) as [E2|E2]; cbn [orb negb].
+  { split; [split; auto; intros _; right; left; lia | discriminate]. }
+  destruct (Nat.eqb_spec (length (rcolptr r) - 1) (rn r)) as [E3|E3]; cbn [orb negb].
+  2:{ split; [split; auto; intros _; right; left; lia | discriminate]. }
+  destruct (Nat.eqb_spec (nth (rn r) (rcolptr r) 0) (length (rrowval r))) as [E4|E4];
+    cbn [orb negb].
+  2:{ split; [split; auto | discriminate]. }
+  assert (Hno : ~ (length (rrowval r) <> length (rnzval r) \/ length (rcolptr r) <> S (rn r)
+      \/ nth (rn r) (rcolptr r) 0 <> length (rrowval r))).
+  { intros [H|[H|H]]; try contradiction. lia. }
+  destruct (Nat.eqb_spec (nth 0 (rcolptr r) 0) 0) as [E5|E5]; cbn [negb].
+  2:{ split; [split; [discriminate | intros H; contradiction] | auto]. }
+  destruct (mono_le (rcolptr r)) eqn:E6; cbn [negb].
+  2:{ split; [split; [discriminate | intros H; contradiction] | auto]. }
+  match goal with |- context [forallb ?f (raw_cols r)] =>
+    destruct (forallb f (raw_cols r)) end; cbn [negb].
+  2:{ split; [split; [discriminate | intros H; contradiction] | discriminate]. }
+  match goal with |- context [forallb ?f (rrowval r)] =>
+    destruct (forallb f (rrowval r)) end; cbn [negb].
+  - split; [split; [discriminate | intros H; contradiction] | discriminate].
+  - split; [split; [discriminate | intros H; contradiction] | discriminate].
 Qed.
 
 End Canon.
@@ -318,6 +313,113 @@ Proof.
   - rewrite (sumT_map_mul_r O RT _ (fun v => v)). rewrite map_id. reflexivity.
 Qed.
 
+(** ** sums *)
+Lemma sumT_cols_get (A : csc) i :
+  WellDim A ->
+  sumT (map (fun c => colget c i) (cols A)) = sum_upto O (nc A) (fun j => get A i j).
+Proof.
+  intros HA. unfold WellDim in HA. unfold sum_upto, Model.get. rewrite <- HA.
+  rewrite <- (map_nth_seq (cols A) []) at 1. rewrite map_map. reflexivity.
+Qed.
+
+Lemma sums_aux (A : csc) : WellDim A -> RowsIn A ->
+  (forall j, j < nc A -> nth j (col_sums O A) oz = sum_upto O (nr A) (fun i => get A i j)) /\
+  (forall i, i < nr A -> nth i (row_sums O A) oz = sum_upto O (nc A) (fun j => get A i j)).
+Proof.
+  intros HA HR. split.
+  - intros j Hj. unfold col_sums.
+    transitivity (sumT (map snd (nth j (cols A) []))).
+    { apply (map_nth (fun c : col => sumT (map snd c)) (cols A) [] j). }
+    unfold Model.get. apply sumT_colget; [exact RT|].
+    intros e He. eapply rowsin_nth; eauto.
+  - intros i Hi. unfold row_sums.
+    change (fold_left (fun (s : list T) (e : nat * T) => upd O s (fst e) (fun t => t [+] snd e))
+              (concat (cols A)) (repeat oz (nr A)))
+      with (apply_upds O (concat (cols A)) (repeat oz (nr A))).
+    destruct (apply_upds_spec O RT (concat (cols A)) (repeat oz (nr A))) as [_ Hn].
+    { intros u Hu. rewrite repeat_length. apply in_concat in Hu.
+      destruct Hu as [c [Hc Hu]]. eapply rowsin_in; eauto. }
+    rewrite Hn, nth_repeat, colget_concat by exact RT.
+    rewrite sumT_cols_get by exact HA. ring.
+Qed.
+
+(** ** gemv_T *)
+Lemma sumT_map_lin a k (l : list T) :
+  sumT (map (fun v => a [*] v [*] k) l) = a [*] (sumT l [*] k).
+Proof.
+  induction l as [|v l IH]; cbn [map].
+  - change (sumT []) with oz. ring.
+  - rewrite !sumT_cons, IH. ring.
+Qed.
+
+Lemma gemv_T_aux (A : csc) (x y : list T) (a b : T) :
+  WellDim A -> RowsIn A -> length y = nc A ->
+  length (gemv_T O A x y a b) = nc A /\
+  forall j, j < nc A ->
+    nth j (gemv_T O A x y a b) oz =
+    b [*] nth j y oz [+] a [*] sum_upto O (nr A) (fun i => get A i j [*] nth i x oz).
+Proof.
+  intros HA HR Hy. unfold gemv_T. split.
+  - rewrite map_length, indexed_length. exact Hy.
+  - intros j Hj. rewrite (nth_map_indexed _ y j oz) by lia. cbn [fst snd].
+    rewrite (fold_left_add O RT (fun e : nat * T => a [*] snd e [*] nth (fst e) x oz)).
+    f_equal.
+    transitivity (a [*] sumT (map (fun e : nat * T => snd e [*] nth (fst e) x oz)
+                                  (nth j (cols A) []))).
+    { rewrite <- sumT_map_mul_l by exact RT. apply sumT_map_ext. intros e _. ring. }
+    f_equal. unfold Model.get. apply sumT_rowweight; [exact RT|].
+    intros e He. eapply rowsin_nth; eauto.
+Qed.
+
+(** ** gemv *)
+Definition gemv_upds (a : T) (x : list T) (jc : nat * col) : col :=
+  map (fun e => (fst e, a [*] snd e [*] nth (fst jc) x oz)) (snd jc).
+
+Lemma gemv_as_upds (A : csc) x y a b :
+  gemv O A x y a b =
+  apply_upds O (flat_map (gemv_upds a x) (indexed (cols A))) (map (fun t => b [*] t) y).
+Proof.
+  unfold gemv. rewrite <- apply_upds_flat. apply fold_left_ext. intros y' jc _.
+  unfold gemv_upds, apply_upds. rewrite fold_left_map. reflexivity.
+Qed.
+
+Lemma colget_gemv_upds a x j (c : col) i :
+  colget (gemv_upds a x (j, c)) i = a [*] (colget c i [*] nth j x oz).
+Proof.
+  unfold gemv_upds. cbn [fst snd].
+  rewrite (colget_mapv O (fun _ v => a [*] v [*] nth j x oz)).
+  apply sumT_map_lin.
+Qed.
+
+Lemma nth_map_scale b (y : list T) i :
+  i < length y -> nth i (map (fun t => b [*] t) y) oz = b [*] nth i y oz.
+Proof.
+  intros Hi. rewrite (nth_indep _ oz (b [*] oz)) by (rewrite map_length; exact Hi).
+  apply (map_nth (fun t => b [*] t)).
+Qed.
+
+Lemma gemv_aux (A : csc) (x y : list T) (a b : T) :
+  WellDim A -> RowsIn A -> length y = nr A ->
+  length (gemv O A x y a b) = nr A /\
+  forall i, i < nr A ->
+    nth i (gemv O A x y a b) oz =
+    b [*] nth i y oz [+] a [*] sum_upto O (nc A) (fun j => get A i j [*] nth j x oz).
+Proof.
+  intros HA HR Hy. rewrite gemv_as_upds.
+  destruct (apply_upds_spec O RT (flat_map (gemv_upds a x) (indexed (cols A)))
+              (map (fun t => b [*] t) y)) as [Hl Hn].
+  { intros u Hu. rewrite map_length, Hy. apply in_flat_map in Hu.
+    destruct Hu as [[j c] [Hjc Hu]]. apply in_indexed in Hjc. destruct Hjc as [_ Hc].
+    unfold gemv_upds in Hu. cbn [fst snd] in Hu. apply in_map_iff in Hu.
+    destruct Hu as [e [<- He]]. cbn [fst]. eapply rowsin_in; eauto. }
+  split.
+  - rewrite Hl, map_length. exact Hy.
+  - intros i Hi. rewrite Hn. rewrite nth_map_scale by lia. f_equal.
+    rewrite colget_flat_map by exact RT. rewrite (sumT_indexed O _ (cols A) []).
+    unfold WellDim in HA. rewrite HA. rewrite <- sum_upto_mul_l by exact RT.
+    apply sum_upto_ext. intros j _. apply colget_gemv_upds.
+Qed.
+
 End Alg.
 
 (** * The statements *)
@@ -339,9 +441,29 @@ Proof. intros [RT _] A l r c. apply map_vals_aux. exact RT. Qed.
 Lemma decode_encode_ok {T} : stmt_decode_encode (T:=T).
 Proof. intros A. apply decode_encode_aux. Qed.
 
+Lemma sums_ok {T} (O : Ops T) : stmt_sums O.
+Proof. intros [RT _] A. apply sums_aux; exact RT. Qed.
+
+Lemma gemv_T_ok {T} (O : Ops T) : stmt_gemv_T O.
+Proof. intros [RT _] A x y a b. apply gemv_T_aux; exact RT. Qed.
+
+Lemma gemv_ok {T} (O : Ops T) : stmt_gemv O.
+Proof. intros [RT _] A x y a b. apply gemv_aux; exact RT. Qed.
+
+Lemma check_format_iff_ok {T} : stmt_check_format_iff (T:=T).
+Proof. intros r. apply check_format_iff_aux. Qed.
+
+Lemma check_format_errors_ok {T} : stmt_check_format_errors (T:=T).
+Proof. intros r. apply check_format_errors_aux. Qed.
+
 Print Assumptions hcat_ok.
 Print Assumptions vcat_ok.
 Print Assumptions blockdiag2_ok.
 Print Assumptions hvcat_special_ok.
 Print Assumptions map_vals_ok.
 Print Assumptions decode_encode_ok.
+Print Assumptions check_format_iff_ok.
+Print Assumptions check_format_errors_ok.
+Print Assumptions sums_ok.
+Print Assumptions gemv_T_ok.
+Print Assumptions gemv_ok.
